@@ -199,8 +199,10 @@ claim("C07", "proof",
       "neighbour); the wrapper draws with exactly that mean, or returns 0 without a draw when the mean is not positive. "
       "Concrete battery: 3000 steps of the built engine, each checked to be one possible event.",
       "Statistical statement: reduced to interval membership over consecutive partial sums and to the library's Poisson/uniform "
-      "distributions (A2); no statistical test is run. 'At least one event when a0 > 0' needs a0 to be the exact sum of the "
-      "channels (rounding): not decided. mesh_kr/mesh_kd (volume scaling, interface constants) are C01's rate-law obligations. "
+      "distributions (A2); no statistical test is run. 'Exactly one event when a0 > 0' is proved over the reals for Gillespie3D "
+      "(ComputePropensities leaves a0 and the per-cell sums equal to the ghost sums of the channels; no path of DrawAndApplyEvent "
+      "leaves the search without an event); for the graph class it is in the concrete step battery only; with doubles the last "
+      "interval can be missed by rounding (A1). mesh_kr/mesh_kd (volume scaling, interface constants) are C01's rate-law obligations. "
       "Apply_nevt's net effect (sums over channels) is covered per channel in C02 only. A1.",
       "deductive: symbolic interpretation of clang AST with loop invariants, callee contracts and ghost functions + SMT/rational-function identities; sanitizer replay battery",
       "DESIGN.md 3/C07")
